@@ -26,7 +26,10 @@ MANIFEST = {
             'against the Coq index-map/matmul/broadcast model by vm_compute; secure arrays over GF(2^8), GF(3^4) and GF(2^31-1) '
             '(elementwise, matmul, reductions, movement, input by every party) at m=3,t=1 and m=5,t=2, PRSS on/off, against scalar '
             'field arithmetic and secure scalars, every party\'s output compared; thresha np_* vs list versions compared exactly, '
-            'for extension fields including recombination of the array shares from every (t+1)-subset.',
+            'for extension fields including recombination of the array shares from every (t+1)-subset; an aliasing stream calls every '
+            'array operation that takes a Python list, a public ndarray or a key/axes list, mutates the caller\'s container before '
+            'awaiting (m=1 -M1 and m=3) and expects NumPy semantics for the arguments at call time (three open known findings, '
+            'controls for the operations that copy before their first await).',
     'note': 'The secure content of the array operations is the scalar protocol applied elementwise (scalar properties are '
             'proved elsewhere); here the theorems are the index maps that transfer them. Correspondence/oracle-only (no '
             'theorem): comparisons and np_sort/np_sgn/np_trunc as protocols (compared with NumPy and with secure scalars), '
@@ -968,6 +971,143 @@ def thresha_ext_checks(ctx, np):
     ctx.extra['thresha_extension_field_agreements'] = n_ok
 
 
+# ------------------------------------------------------------------------------------------------
+# aliasing stream: an array operation must use its arguments as passed at call time.  In asynchronous mode (-M1, m>1) a
+# coroutine runs only up to its first await when called; the caller then mutates ITS OWN list / public ndarray / key
+# or axes list before awaiting the result.  Expected = NumPy semantics for the arguments at call time.
+
+def alias_table():
+    import numpy
+    T = []
+
+    def seq_muts():
+        return {'reverse': lambda C, A: C['L'].reverse(),
+                'overwrite': lambda C, A: C['L'].__setitem__(0, C['L'][2]),
+                'del': lambda C, A: C['L'].__delitem__(-1),
+                'append': lambda C, A: C['L'].append(C['L'][0])}
+    for nm in ('concatenate', 'stack', 'vstack', 'hstack', 'dstack', 'column_stack'):
+        T.append(dict(fn='np_' + nm, kind='list', make=lambda A: {'L': [A['x'], A['y'], A['z']]},
+                      call=lambda mpc, np, A, C, nm=nm: getattr(np, nm)(C['L']), muts=seq_muts()))
+    T.append(dict(fn='np_block', kind='nested', make=lambda A: {'L': [[A['x'], A['y']], [A['y'], A['z']]]},
+                  call=lambda mpc, np, A, C: np.block(C['L']),
+                  muts={'reverse': lambda C, A: C['L'].reverse(),
+                        'inner-overwrite': lambda C, A: C['L'][0].__setitem__(0, C['L'][1][1]),
+                        'inner-reverse': lambda C, A: C['L'][0].reverse()}))
+    T.append(dict(fn='np_fromlist', kind='list', make=lambda A: {'L': A['v'].tolist()},
+                  call=lambda mpc, np, A, C: mpc.np_fromlist(C['L']), plain=lambda np, A, C: np.array(C['L']),
+                  muts={'reverse': lambda C, A: C['L'].reverse(),
+                        'overwrite': lambda C, A: C['L'].__setitem__(0, C['L'][2]),
+                        'del': lambda C, A: C['L'].__delitem__(-1),
+                        'append': lambda C, A: C['L'].append(C['L'][0])}))
+    pub_muts = {'overwrite': lambda C, A: C['w'].__setitem__(0, 77), 'scale': lambda C, A: C['w'].__imul__(2)}
+    for nm in ('concatenate', 'stack', 'vstack', 'hstack'):
+        T.append(dict(fn='np_' + nm, kind='pubelem', make=lambda A: {'w': numpy.array([5, 6, 7, 8])},
+                      call=lambda mpc, np, A, C, nm=nm: getattr(np, nm)((A['v'], C['w'])), muts=pub_muts))
+    T.append(dict(fn='np_append', kind='pubelem', make=lambda A: {'w': numpy.array([5, 6, 7, 8])},
+                  call=lambda mpc, np, A, C: np.append(A['v'], C['w']), muts=pub_muts))
+    # keys / axes
+    key_muts = {'reverse': lambda C, A: C['k'].reverse(), 'overwrite': lambda C, A: C['k'].__setitem__(0, 3),
+                'del': lambda C, A: C['k'].__delitem__(-1), 'append': lambda C, A: C['k'].append(1)}
+    T.append(dict(fn='np_getitem', kind='key', make=lambda A: {'k': [0, 2]}, call=lambda mpc, np, A, C: A['v'][C['k']], muts=key_muts))
+
+    def upd_plain(np, A, C, val):
+        b = A['v'].copy()
+        b[C['k']] = val
+        return b
+    T.append(dict(fn='np_update', kind='key', make=lambda A: {'k': [0, 2]},
+                  call=lambda mpc, np, A, C: mpc.np_update(A['v'], C['k'], A['u']), plain=lambda np, A, C: upd_plain(np, A, C, A['u']),
+                  muts={'reverse': key_muts['reverse'], 'overwrite': key_muts['overwrite']}))
+    T.append(dict(fn='np_update', kind='value', make=lambda A: {'k': [0, 2], 'w': numpy.array([7, 8])},
+                  call=lambda mpc, np, A, C: mpc.np_update(A['v'], C['k'], C['w']), plain=lambda np, A, C: upd_plain(np, A, C, C['w']),
+                  muts={'overwrite': lambda C, A: C['w'].__setitem__(0, 100), 'scale': lambda C, A: C['w'].__imul__(2)}))
+    T.append(dict(fn='np_transpose', kind='axes', make=lambda A: {'ax': [1, 0, 2]}, call=lambda mpc, np, A, C: np.transpose(A['t'], C['ax']),
+                  muts={'reverse': lambda C, A: C['ax'].reverse()}))
+    T.append(dict(fn='np_roll', kind='axes', make=lambda A: {'ax': [0]}, call=lambda mpc, np, A, C: np.roll(A['x'], 1, axis=C['ax']),
+                  muts={'overwrite': lambda C, A: C['ax'].__setitem__(0, 1)}))
+    T.append(dict(fn='np_flip', kind='axes', make=lambda A: {'ax': [0]}, call=lambda mpc, np, A, C: np.flip(A['x'], axis=C['ax']),
+                  muts={'overwrite': lambda C, A: C['ax'].__setitem__(0, 1), 'append': lambda C, A: C['ax'].append(1)}))
+    T.append(dict(fn='np_rot90', kind='axes', make=lambda A: {'ax': [0, 1]}, call=lambda mpc, np, A, C: np.rot90(A['r'], 1, axes=C['ax']),
+                  muts={'reverse': lambda C, A: C['ax'].reverse()}))
+    T.append(dict(fn='np_expand_dims', kind='axes', make=lambda A: {'ax': [0]}, call=lambda mpc, np, A, C: np.expand_dims(A['x'], C['ax']),
+                  muts={'overwrite': lambda C, A: C['ax'].__setitem__(0, 1)}))
+    # public ndarray operands
+    arr_muts = {'overwrite': lambda C, A: C['w'].__setitem__((0,) * C['w'].ndim, 100), 'scale': lambda C, A: C['w'].__imul__(2)}
+    W2 = lambda A: {'w': numpy.array([[2, 3], [4, 5]])}
+    W1 = lambda A: {'w': numpy.array([1, 2, 3])}
+    T.append(dict(fn='np_multiply', kind='pubarr', make=W2, call=lambda mpc, np, A, C: A['x'] * C['w'], muts=arr_muts))
+    T.append(dict(fn='np_matmul', kind='pubarr', make=W2, call=lambda mpc, np, A, C: A['x'] @ C['w'], muts=arr_muts))
+    T.append(dict(fn='np_matmul', kind='pubarr', make=W2, call=lambda mpc, np, A, C: C['w'] @ A['x'], muts=arr_muts, tag='left'))
+    T.append(dict(fn='np_left_shift', kind='pubarr', make=lambda A: {'w': numpy.array([[1, 2], [0, 3]])},
+                  call=lambda mpc, np, A, C: A['x'] << C['w'], muts={'overwrite': lambda C, A: C['w'].__setitem__((0, 0), 4),
+                                                                     'scale': lambda C, A: C['w'].__imul__(2)}))
+    T.append(dict(fn='np_convolve', kind='pubarr', make=W1, call=lambda mpc, np, A, C: np.convolve(A['v'], C['w']), muts=arr_muts))
+    T.append(dict(fn='np_outer', kind='pubarr', make=W1, call=lambda mpc, np, A, C: np.outer(A['v'], C['w']), muts=arr_muts))
+    T.append(dict(fn='np_add', kind='pubarr', make=W2, call=lambda mpc, np, A, C: mpc.np_add(A['x'], C['w']),
+                  plain=lambda np, A, C: A['x'] + C['w'], muts=arr_muts))
+    T.append(dict(fn='np_subtract', kind='pubarr', make=W2, call=lambda mpc, np, A, C: mpc.np_subtract(A['x'], C['w']),
+                  plain=lambda np, A, C: A['x'] - C['w'], muts=arr_muts))
+    # controls: operations that copy / rebuild their argument before the first await today (a late read appearing here,
+    # or anywhere outside the functions listed in known_findings/C37.json, is a new violation)
+    T.append(dict(fn='operator_add', kind='pubarr', make=W2, call=lambda mpc, np, A, C: A['x'] + C['w'], muts=arr_muts))
+    T.append(dict(fn='operator_sub', kind='pubarr', make=W2, call=lambda mpc, np, A, C: C['w'] - A['x'], muts=arr_muts))
+    T.append(dict(fn='np_reshape', kind='axes', make=lambda A: {'ax': [-1, 2]}, call=lambda mpc, np, A, C: np.reshape(A['t'], C['ax']),
+                  muts={'overwrite': lambda C, A: C['ax'].__setitem__(1, 3)}))
+    T.append(dict(fn='np_sum', kind='axes', make=lambda A: {'ax': (0, 1)}, call=lambda mpc, np, A, C: np.sum(A['t'], axis=C['ax']),
+                  muts={'none': lambda C, A: None}))
+    T.append(dict(fn='np_where', kind='pubarr', make=W2, call=lambda mpc, np, A, C: np.where(A['x'] < A['y'], A['x'], A['y']) + 0 * C['w'].shape[0],
+                  muts={'none': lambda C, A: None}))
+    T.append(dict(fn='np_multiply', kind='float-pubarr', make=lambda A: {'w': numpy.array([[0.5, 1.5], [2.0, -1.0]])},
+                  call=lambda mpc, np, A, C: A['q'] * C['w'], muts={'overwrite': lambda C, A: C['w'].__setitem__((0, 0), 3.0),
+                                                                   'scale': lambda C, A: C['w'].__imul__(2)}))
+    return T
+
+
+ALIAS_PLAIN = {'x': [[1, 2], [3, 4]], 'y': [[5, 6], [7, 8]], 'z': [[9, 10], [11, 12]], 'v': [10, 20, 30, 40], 'u': [7, 8],
+               'r': [[1, 2, 3], [4, 5, 6]], 't': [[[0, 1], [2, 3], [4, 5]], [[6, 7], [8, 9], [10, 11]]],
+               'q': [[1.0, -2.0], [0.5, 4.0]]}
+
+
+def alias_stream(ctx):
+    import numpy
+    T = alias_table()
+    cases = [(i, mut) for i, spec in enumerate(T) for mut in spec['muts']]
+
+    async def coro(mpc, mods, pid, case):
+        (i, mut) = case
+        spec = T[i]
+        np = mods['mpyc.numpy'].np
+        secint, secfxp = mpc.SecInt(16), mpc.SecFxp(16)
+        A = {}
+        for nm, val in ALIAS_PLAIN.items():
+            st = secfxp if nm == 'q' else secint
+            A[nm] = mpc.input(st.array(np.array(val, dtype=float if nm == 'q' else int)), senders=0)
+        C = spec['make'](A)
+        r = spec['call'](mpc, np, A, C)         # runs up to the first await
+        spec['muts'][mut](C, A)                 # the caller changes its own container
+        v = await mpc.output(r)
+        if hasattr(v, 'tolist') and hasattr(v, 'shape'):
+            return ('arr', list(v.shape), [e if isinstance(e, float) else int(e) for e in v.reshape(-1).tolist()])
+        return ('val', v if isinstance(v, float) else int(v))
+    for (m, t) in ((1, 0), (3, 1)):
+        t1 = time.time()
+        res = run_cases(ctx, m, t, False, cases, coro, seed=ctx.seed + 7 + m)
+        for (i, mut), got in zip(cases, res):
+            spec = T[i]
+            Ap = {nm: numpy.array(val, dtype=float if nm == 'q' else int) for nm, val in ALIAS_PLAIN.items()}
+            Cp = spec['make'](Ap)
+            w = spec['plain'](numpy, Ap, Cp) if 'plain' in spec else spec['call'](None, numpy, Ap, Cp)
+            w = numpy.asarray(w)
+            want = ('arr', list(w.shape), [float(e) if isinstance(e, (float, numpy.floating)) else int(e) for e in w.reshape(-1).tolist()])
+            key = {'aliasing': spec['fn'], 'arg': spec['kind'], 'mutation': mut, 'side': spec.get('tag', ''), 'm': m}
+            okv = isinstance(got, tuple) and got and got[0] in ('arr', 'val') and close(got, want, 0)
+            ctx.case(key, nontrivial=True, kind='aliasing %s %s m=%d' % (spec['fn'], spec['kind'], m))
+            if not okv:
+                ctx.violation('aliasing %s %s:%s m=%d' % (spec['fn'], spec['kind'], mut, m),
+                              dict(key, got=str(got)[:300], want_call_time_arguments=want,
+                                   note='result depends on a mutation the caller made to its own container after the call'))
+        ctx.log('aliasing stream m=%d: %d (operation, mutation) cases in %.1fs' % (m, len(cases), time.time() - t1))
+
+
 def run(ctx):
     ok = ctx.build() and ctx.check_props()
     try:
@@ -1039,6 +1179,7 @@ def run(ctx):
                 model_items.append((case, got['arr'], e))
         ctx.log('%s: %d cases in %.1fs' % (cfg, len(cases), time.time() - t1))
     ext_stream(ctx, FF)
+    alias_stream(ctx)
     # (iii) Coq model
     if ok and model_items:
         res = ctx.coq_eval(['MPyC.Arrays'], [e for (_, _, e) in model_items], chunk=100)
